@@ -148,6 +148,13 @@ func c13Specs() []*edt.Spec {
 				"error": func(e *edt.Env) edt.Tri { return edt.Not(e.V("readOK")) },
 			},
 			Extra: func(p *edt.Path, out, class string, e *edt.Env, ab func(string) string) string {
+				if class == "error" {
+					// a Finalize that fails is not part of the history: the builder must be as it was
+					if got := strobeOps(p, "Strobe."); len(got) != 0 {
+						return "a failing Finalize (entropy read error) must leave the builder's STROBE state untouched, but it has already performed " + strings.Join(got, " ; ")
+					}
+					return ""
+				}
 				if class != "rng" {
 					return ""
 				}
